@@ -21,6 +21,7 @@ EXPLANATION = (
     "the diagonal of a density matrix; QutipOperator.expect returns qutip.expect(op, state) whole (no real/imaginary/absolute part: operators need not be Hermitian). "
     "NOT decided: the numeric values of the observables (runtime)."
     ' Round 4 (added): a bra handed to QutipState is stored as its adjoint (.dag()); QutipState.overlap uses the squared modulus only under a test that both states are kets.'
+    ' Round 5 (added): the energy moments are expectation values ((H @ H).expect(state), H.expect(state)), defined for density matrices too.'
 )
 ASSUMPTIONS = ["the truth table is evaluated over the three atoms of the path condition of the storing call, read off the symbolic normal form (pstatic/sym.py)"]
 
